@@ -219,7 +219,7 @@ func checkC05(res *Result) {
 						}
 					}
 					res.check(okCreate, "C05-R4", fname(fn), p.pos(c), "object ids are renewed only for a Create", "facts: "+ff.describe(c))
-					tot, why := totalLoop(loopBlocks(c.Block()), func(r *ssa.Return) bool { _, nn := ff.errStatus(r, 0); mn, _ := ff.errStatus(r, 0); return nn && !mn })
+					tot, why := totalLoopFF(ff, loopBlocks(c.Block()))
 					res.check(tot, "C05-R4", fname(fn), p.pos(c), "every object of the Create gets a new id (total loop)", why)
 				}
 			}
